@@ -309,8 +309,10 @@ func (t *Term) csi(it vtref.Item) {
 		}
 		if status >= 0 {
 			t.send("decrpm", fmt.Sprintf("\x1b[?%d;%d$y", mode, status))
-		} else if t.Caps.DECRPMUnknownZero {
+		} else if t.Caps.DECRPMAbsent == 1 {
 			t.send("decrpm", fmt.Sprintf("\x1b[?%d;0$y", mode))
+		} else if t.Caps.DECRPMAbsent == 2 {
+			t.send("decrpm", fmt.Sprintf("\x1b[?%d;4$y", mode))
 		}
 	case "t":
 		switch rawPar(it, 0) {
@@ -331,6 +333,10 @@ func (t *Term) csi(it vtref.Item) {
 		t.log("query", "XTSMGRAPHICS")
 		if t.Caps.XTSM {
 			t.send("xtsm", fmt.Sprintf("\x1b[?%d;0;%dS", rawPar(it, 0), 256))
+		} else if t.Caps.DECRPMAbsent != 0 {
+			// a terminal that knows XTSMGRAPHICS but has no sixel support
+			// answers with an error status (1 = error in Pi, 3 = failure)
+			t.send("xtsm", fmt.Sprintf("\x1b[?%d;%d;0S", rawPar(it, 0), 2*t.Caps.DECRPMAbsent-1))
 		}
 	case "s":
 		t.cur.saved = savedCursor{row: t.C.Row, col: t.C.Col, pen: t.Pen, wrap: t.PendingWrap, set: true}
